@@ -189,7 +189,8 @@ class Design:
             if k == "lit":
                 return {"k": "lit", "v": e["v"], "w": e["w"]}
             if k == "idx":
-                return {"k": "idx", "arr": [x.idx + 1 for x in e["arr"]], "i": ex(e["i"])}
+                lo, hi = e.get("sl") or (0, e["arr"][0].w)
+                return {"k": "idx", "arr": [x.idx + 1 for x in e["arr"]], "i": ex(e["i"]), "lo": lo, "hi": hi}
             if k == "not":
                 return {"k": "not", "a": ex(e["a"]), "w": e["w"]}
             if k == "bin":
@@ -269,7 +270,8 @@ class Design:
         if k == "idx":
             a0 = e["arr"][0]
             base = ".".join(("s",) + a0.comp[len(host):] + (a0.arr[0],))
-            return "%s[%s]" % (base, P(e["i"]))
+            sl = "[%d:%d]" % e["sl"] if e.get("sl") else ""     # s.arr[s.sel][lo:hi]: index in an inner position
+            return "%s[%s]%s" % (base, P(e["i"]), sl)
         if k == "not":
             return "(~%s)" % P(e["a"])
         if k == "bin":
@@ -554,7 +556,7 @@ class Gen:
         # array read with variable index
         arrs = {}
         for s in g.readable_sigs(host):
-            if s.arr and s.w == w:
+            if s.arr and s.w >= w:
                 arrs.setdefault((s.comp, s.arr[0]), []).append(s)
         if arrs:
             elems = sorted(r.choice(sorted(arrs.values(), key=lambda x: x[0].idx)), key=lambda s: s.arr[1])
@@ -562,7 +564,11 @@ class Gen:
             if ff or all(x is not None and x <= maxrank for x in rk):
                 iw = {2: 1, 4: 2}[len(elems)]
                 i, ri = sub(iw)
-                return {"k": "idx", "arr": elems, "i": i}, max([ri] + [x or 0 for x in rk])
+                node = {"k": "idx", "arr": elems, "i": i}
+                if elems[0].w > w:      # a slice of the selected element
+                    lo = r.randrange(elems[0].w - w + 1)
+                    node["sl"] = (lo, lo + w)
+                return node, max([ri] + [x or 0 for x in rk])
         a, ra = sub(w)
         return {"k": "not", "a": a, "w": w}, ra
 
@@ -856,7 +862,7 @@ def footprints(dj):
         if k == "idx":
             out = erefs(e["i"])
             for s in e["arr"]:
-                out |= {(dj["sigs"][s - 1]["rep"], b) for b in range(dj["sigs"][s - 1]["w"])}
+                out |= {(dj["sigs"][s - 1]["rep"], b) for b in range(e["lo"], e["hi"])}
             return out
         out = set()
         for f in ("a", "b", "c", "hi", "lo"):
